@@ -422,7 +422,7 @@ func runRelay(c *Ctx) error {
 		return err
 	}
 	// part 2
-	work, err := os.MkdirTemp(fsWorkDir(c), "relay-")
+	work, err := os.MkdirTemp(fsWorkDir(c), scratchPrefix("relay"))
 	if err != nil {
 		return err
 	}
